@@ -103,7 +103,7 @@ def run(ctx):
     rng = ctx.rng
     msolve.install(ctx, owner="C01", brute_cap=64)
     thorough = ctx.tier == "thorough"
-    per = 12 if not thorough else 200
+    per = 36 if not thorough else 400
     names = list(rules.PUZZLES)
     for t in range(per):
         for name in names:
